@@ -332,3 +332,9 @@ Definition holds_blob_F50 (wrapT innerT: ty) : bool :=
   tagset_eqb (tagset_of' wrapT) (tagset_of' innerT).
 Definition f50_class (wrapT innerT: ty) : bool :=
   holds_blob_F50 wrapT innerT && negb (holds_blob wrapT innerT).
+
+(* F01 (open; harness/codec.py f01_applies) at the top of an inner type: two or more tags over a type
+   whose encoder does not support the indefinite form *)
+Definition f01_top (T: ty) : bool :=
+  Nat.leb 2 (length (tagset_of' T))
+  && match base_of T with TBool | TInt | TEnum | TNull | TOid | TReal => true | _ => false end.
